@@ -100,7 +100,7 @@ func vuUploader(dir string, cfg *telemetry.UploadConfig, version, url string, st
 		configVersion:   version,
 		dir:             telemetry.NewDir(dir),
 		uploadServerURL: url,
-		startTime:       start,
+		startTime:       RunConfig{StartTime: start}.startTime(), // as newUploader does
 		logger:          log.New(io.Discard, "", 0),
 	}
 }
